@@ -221,7 +221,8 @@ def execute_c07(case):
             expect[tag] = (kind, [[x, i] for x in range(n)])
             work += d * n
     if case['close_after'] == 'all':
-        steps.append(['wait_all', 60])
+        # (without helper threads nothing resolves handles before join())
+        steps.append(['wait_all', 60] if threads else ['sleep', 0.5])
     elif case['close_after']:
         steps.append(['sleep', case['close_after']])
     steps += [['snapshot', 'before'], ['close'], ['join'],
